@@ -15,7 +15,7 @@ use std::sync::atomic::{AtomicBool, Ordering};
 use tokio::net::{TcpListener, TcpStream};
 
 const RULE: &str = "one case = one cell of the full matrix {server certificate issued by the client's trusted CA / another CA / self-signed} x {requested name matches / differs} x {skip-verify on/off} x {client certificate: none / under the server's client CA / under another CA} x {server client-CA configured / not} (72 cells, both ECDSA P-256 and P-384 material in thorough), \
-each executed as a real handshake over loopback through run_listener + tls_connect followed by GET /health; plus a CertificateRequest probe with a recording client-certificate resolver, probes with CA bundles that contain no certificate (server client-CA, reload, client roots) while the system trust store holds a CA that would accept the peer, identity reload cycles with an established connection kept open, and the operator's path (server_main with certificate files, files replaced, SIGUSR1, three or more times in a row, with and without a client CA) after each of which the client-certificate column and the CertificateRequest probe are repeated. \
+each executed as a real handshake over loopback through run_listener + tls_connect followed by GET /health; plus a CertificateRequest probe with a recording client-certificate resolver, a 12-cell matrix of the name a real client asks for (client_main_inner with --tls-server-name / --hostname / neither, against certificates valid for each of the three names), probes with CA bundles that contain no certificate (server client-CA, reload, client roots) while the system trust store holds a CA that would accept the peer, identity reload cycles with an established connection kept open, and the operator's path (server_main with certificate files, files replaced, SIGUSR1, three or more times in a row, with and without a client CA) after each of which the client-certificate column and the CertificateRequest probe are repeated. \
 Oracle: the reference truth table of the statement. Exhaustive over the matrix. Non-trivial = every cell; distinct = distinct (cell, key type)";
 
 struct Pki {
@@ -76,6 +76,12 @@ fn make_pki(alg: &'static rcgen::SignatureAlgorithm) -> Pki {
         let (c, k) = leaf("verif client (public CA)", vec![], Some((&capp, &capk)), true, alg);
         w("cli-pub.pem", &c);
         w("cli-pub.key", &k);
+    }
+    // server certificates under the trusted CA for the real-client name matrix
+    for (tag, sans) in [("n-url", vec!["127.0.0.1".to_string(), "localhost".to_string()]), ("n-sni", vec!["server.test".to_string()]), ("n-host", vec!["h.example".to_string()])] {
+        let (c, k) = leaf(&sans[0], sans.clone(), Some((&ca1p, &ca1k)), false, alg);
+        w(&format!("srv-{tag}.pem"), &c);
+        w(&format!("srv-{tag}.key"), &k);
     }
     w("empty.pem", "");
     w("comments.pem", "# no certificate in here\n\n");
@@ -260,6 +266,106 @@ async fn reload(st: &mut Stats, pki: &Pki, cycles: usize) {
     }
 }
 
+/// The name a real client asks for: `--tls-server-name` if given, else `--hostname` if given, else the host of the URL.
+/// Executed through `client_main_inner` (options -> handshake), not through `tls_connect` with a name picked by the harness.
+async fn client_name_matrix(st: &mut Stats, pki: &Pki) {
+    use penguin_mux::timing::OptionalDuration;
+    use rusty_penguin_lib::arg::{ClientArgs, Remote, ServerUrl};
+    use rusty_penguin_lib::client::{self, HandlerResources};
+    use std::str::FromStr;
+    use tokio::io::{AsyncReadExt, AsyncWriteExt};
+    // echo target
+    let tl = TcpListener::bind("127.0.0.1:0").await.expect("bind");
+    let tport = tl.local_addr().expect("addr").port();
+    let target = tokio::spawn(async move {
+        loop {
+            let Ok((mut s, _)) = tl.accept().await else { break };
+            tokio::spawn(async move {
+                let mut b = [0u8; 64];
+                if let Ok(n) = s.read(&mut b).await {
+                    s.write_all(&b[..n]).await.ok();
+                }
+            });
+        }
+    });
+    for cert in ["n-url", "n-sni", "n-host"] {
+        let Ok(identity) = make_tls_identity(&pki.p(&format!("srv-{cert}.pem")), &pki.p(&format!("srv-{cert}.key")), None).await else {
+            st.inconclusive.push(format!("c17 name matrix: cannot build identity {cert}"));
+            continue;
+        };
+        let addr = start(identity).await;
+        for sni in [None, Some("server.test")] {
+            for host in [None, Some("h.example")] {
+                st.evaluations += 1;
+                let requested = sni.or(host).unwrap_or("127.0.0.1");
+                let valid_for: &[&str] = match cert {
+                    "n-url" => &["127.0.0.1", "localhost"],
+                    "n-sni" => &["server.test"],
+                    _ => &["h.example"],
+                };
+                let want = valid_for.contains(&requested);
+                let lport = net::free_tcp_port(false);
+                let args: &'static ClientArgs = Box::leak(Box::new(ClientArgs {
+                    server: ServerUrl::from_str(&format!("wss://127.0.0.1:{}/ws", addr.port())).expect("url"),
+                    remote: vec![Remote::from_str(&format!("127.0.0.1:{lport}:127.0.0.1:{tport}")).expect("remote")],
+                    tls_ca: Some(pki.p("ca1.pem")),
+                    tls_server_name: sni.map(str::to_string),
+                    hostname: host.map(|h| http::HeaderValue::from_static(h)),
+                    keepalive: OptionalDuration::NONE,
+                    keepalive_timeout: OptionalDuration::NONE,
+                    max_retry_count: 1,
+                    max_retry_interval: 200,
+                    handshake_timeout: OptionalDuration::from_secs(3),
+                    channel_timeout: OptionalDuration::from_secs(3),
+                    ..Default::default()
+                }));
+                let (hr, scrx, dgrx) = HandlerResources::create();
+                let hr: &'static HandlerResources = Box::leak(Box::new(hr));
+                let mut cl = tokio::spawn(client::client_main_inner(args, hr, scrx, dgrx));
+                // reached = a conversation through the tunnel works before the client gives up
+                let mut reached = None;
+                for _ in 0..100 {
+                    if cl.is_finished() {
+                        reached = Some(false);
+                        break;
+                    }
+                    if let Ok(Ok(mut s)) = tokio::time::timeout(std::time::Duration::from_millis(300), TcpStream::connect(("127.0.0.1", lport))).await {
+                        if s.write_all(b"name-matrix").await.is_ok() {
+                            let mut b = [0u8; 32];
+                            if let Ok(Ok(n)) = tokio::time::timeout(std::time::Duration::from_millis(400), s.read(&mut b)).await {
+                                if &b[..n] == b"name-matrix" {
+                                    reached = Some(true);
+                                    break;
+                                }
+                            }
+                        }
+                    }
+                    tokio::time::sleep(std::time::Duration::from_millis(50)).await;
+                }
+                if !cl.is_finished() {
+                    cl.abort();
+                } else {
+                    let _ = (&mut cl).await;
+                }
+                let cell = format!("server certificate valid for {valid_for:?}, --tls-server-name {sni:?}, --hostname {host:?}, URL host 127.0.0.1 => requested name {requested}");
+                st.cell("client_name_cell", &cell);
+                st.target("client_name_cells", 1);
+                st.nontrivial(mix(crate::util::fnv(cell.as_bytes()), 0xA17));
+                match reached {
+                    Some(r) if r == want => {}
+                    Some(r) => st.violation(Violation {
+                        signature: format!("client-server-name|{}|cert={cert}|sni={}|hostname={}", if r { "accepted" } else { "rejected" }, sni.is_some(), host.is_some()),
+                        detail: format!("[{cell}]: the real client {} the server; the certificate {} valid for the requested name", if r { "reached" } else { "did not reach" }, if want { "is" } else { "is not" }),
+                        replay: json!({"kind": "c17-client-name", "cell": cell}),
+                    }),
+                    None => st.inconclusive.push(format!("c17 name matrix [{cell}]: neither reached nor given up after 5 s")),
+                }
+            }
+        }
+    }
+    target.abort();
+}
+
 /// A CA bundle that contains no certificate gives no trust anchors: it must not silently turn into "the system's roots".
 /// (The process's system trust store holds `capub.pem`, see `run`.)
 async fn empty_bundle_probes(st: &mut Stats, pki: &Pki) {
@@ -427,6 +533,7 @@ pub fn run(p: &Params) -> (Stats, &'static str) {
         rt.block_on(matrix(&mut st, &pki, name));
         rt.block_on(reload(&mut st, &pki, if p.tier_thorough { 6 } else { 2 }));
         rt.block_on(empty_bundle_probes(&mut st, &pki));
+        rt.block_on(client_name_matrix(&mut st, &pki));
         for client_ca in [true, false] {
             rt.block_on(reload_by_signal(&mut st, &pki, if p.tier_thorough { 6 } else { 3 }, client_ca));
         }
